@@ -56,7 +56,8 @@ Cu : >=0 as.polynomial 3 1
 
 def observe_parser(lines, grid):
     """('reject', msg) | ('accept', nr, cutoff) | ('internal', exc) from ConfigParser(...).tabulation"""
-    text = "[Tabulation]\ntarget : setfl\n" + "\n".join(lines) + "\n" + MODEL
+    # the eam/alloy target under one of its three documented spellings
+    text = "[Tabulation]\ntarget : %s\n" % ("setfl", "lammps_eam_alloy", "LAMMPS_eam_alloy")[len("".join(lines)) % 3] + "\n".join(lines) + "\n" + MODEL
     try:
         cp = ConfigParser(io.StringIO(text))
         t = cp.tabulation
@@ -123,6 +124,8 @@ def observe_table(lines, grid, target):
 
 
 def close(a, b):
+    if a is None or b is None:        # a grid value the implementation left unset is not the value the statement fixes
+        return False
     return abs(a - b) <= 1e-9 * max(1.0, abs(b))
 
 
@@ -163,7 +166,7 @@ def _table_one(idx):
                     bad.append(("wrong-grid", grid, "%s gives nr=%s cutoff=%s, statement says nr=%s cutoff=%s" % (lines, obs[1], obs[2], want[0], want[1]), text))
         # the table actually written
         if want is not None and want[0] >= 2 and not bad:
-            for target in (["LAMMPS", "GULP", "DL_POLY", "setfl", "DL_POLY_EAM", "excel_eam"] if grid == "r" else ["setfl", "DL_POLY_EAM", "excel_eam"]):
+            for target in (["LAMMPS", "GULP", "DL_POLY", "setfl", "DL_POLY_EAM", "excel_eam", "lammps_eam_alloy"] if grid == "r" else ["setfl", "DL_POLY_EAM", "excel_eam", "lammps_eam_alloy", "LAMMPS_eam_alloy"]):
                 if target == "excel_eam" and (want[0] > 50 or idx % 3):
                     continue
                 if target == "DL_POLY" and (want[0] % 4 or want[0] <= 4):
@@ -294,7 +297,7 @@ def main(prop, tier, seed):
                     if obs[0] != "accept" or not close(obs[2], float(cut)):
                         run.violation(dict(engine="grid", clause="wrong-grid", grid=grid), "[wrong-grid] %s grid: %s gives %s; the cutoff given is the cutoff of the table" % (grid, lines, obs[1:]), dict(ini=text))
                         continue
-                    for target in (["LAMMPS", "GULP", "setfl"] if grid == "r" else ["setfl", "DL_POLY_EAM"]):
+                    for target in (["LAMMPS", "GULP", "setfl"] if grid == "r" else ["setfl", "DL_POLY_EAM", "LAMMPS_eam_alloy"]):
                         obs2, text2 = observe_table(lines, grid, target)
                         run.evaluations += 1
                         if obs2[0] != "accept" or obs2[1] != obs[1] or not close(obs2[2], float(cut)) or abs(obs2[3] - float(cut) / (obs[1] - 1)) > 1e-6:      # the tables print 8 decimals
